@@ -38,7 +38,18 @@ def rand_sentence(rng, K, nmax=5, lo=40, n=None, full=True):
     tag = numpy.array([[-v / 8.0 for v in rng.sample(range(0, max(lo, K) + 1), K)] for _ in range(n)], dtype=numpy.float32)
     dep = numpy.array([[-rng.randint(0, lo) / 8.0 for _ in range(n + 1)] for _ in range(n)], dtype=numpy.float32)
     toks = [gen.rand_token(rng, 'en', full=full, plain=rng.random() < 0.5) for _ in range(n)]
+    if rng.random() < 0.15:
+        # some bare strings among the Token objects (Tree.make_terminal accepts Union[str, Token]; depccg.parsing._type_check looks at the very
+        # first token of a document only, which one_batch keeps a Token), bracket escapes among them
+        toks = [(rng.choice(STR_WORDS) if rng.random() < 0.6 else (gen.rand_word(rng) or 'x')) if rng.random() < 0.5 else t for t in toks]
     return Sentence(toks, tag, dep)
+
+
+STR_WORDS = ['-LRB-', '-RRB-', '-LCB-', '-RCB-', '-LSB-', '-RSB-', '(', ')', 'the', 'dog', 'U.S.', "n't", '--', '1/2']
+
+
+def word_of(t):
+    return t if isinstance(t, str) else t.get('word')
 
 
 def real_setup(lang):
@@ -135,8 +146,11 @@ def check_tree(ctx, focus, t, score, s, cats, roots, binary, unary, adm, pen, wh
     leaves = t.leaves
     data = {'where': where, 'tree': auto_str(t)}
     if focus in ('c02', 'c12', 'c16'):
-        if len(leaves) != len(s.tokens) or any(l.token is not tok for l, tok in zip(leaves, s.tokens)):
-            ctx.fail('leaves_not_tokens', f'{where}: leaves do not carry the input tokens in order', data)
+        if len(leaves) != len(s.tokens) or any(((l.token is not tok) if not getattr(s, 'by_value', False) else (type(l.token) is not type(tok) or dict(l.token) != dict(tok)))
+                                               if not isinstance(tok, str) else (dict(l.token) != {'word': tok})
+                                               for l, tok in zip(leaves, s.tokens)):
+            ctx.fail('leaves_not_tokens', f'{where}: leaves do not carry the input tokens in order '
+                     f'(leaves {[dict(l.token) for l in leaves][:6]}, tokens {[t if isinstance(t, str) else dict(t) for t in s.tokens][:6]})', data)
         for i, l in enumerate(leaves):
             if i < len(adm) and l.cat not in adm[i]:
                 ctx.fail('leaf_not_admitted', f'{where}: leaf {i} has supertag {l.cat} which was not admitted for that token', data)
@@ -205,5 +219,7 @@ def retrieve_case(rec, tree):
     ct = '[' + ';'.join(f'({gnat(i)},{gcat(cats[i])})' for i in sorted(ids)) + ']'
     bt = '[' + ';'.join(f'({gnat(x)},{gnat(y)},{results(x, y)})' for x, y in sorted(bkeys)) + ']'
     ut = '[' + ';'.join(f'({gnat(x)},{results(x, rt.UINT_MAX)})' for x in sorted(ukeys)) + ']'
-    tk = '[' + ';'.join(gtoken(t) for t in toks) + ']'
+    from depccg.types import Token
+    # a bare string is a legal token (Union[str, Token]): the leaf then carries Token(word=<that string>)
+    tk = '[' + ';'.join(gtoken(t if not isinstance(t, str) else Token(word=t)) for t in toks) + ']'
     return f'Retr {ct} {bt} {ut} {tk} {A.gderiv(d)} (Some {gtree(tree)})'
